@@ -78,9 +78,10 @@ out.append("\n------------------------------------------------------------------
            "(C15); lines refused for a syntax error inside an RND call, after which the generator must not have moved (C18);\n"
            "NEW followed by further words / in other letter case (C19); a document opened again with a different text, with\n"
            "or without a close in between (C20; new operation `lspo`).  All 16 are now reported with a concrete failing input.\n\n"
-           "Mechanical mutants (`tools/mutants.py`): 239 one-token mutants of the Rust sources (comparison flips, deleted\n"
-           "statements, off-by-one constants) were each run through the existing tests and then through the quick tier in a\n"
-           "scratch copy.  Survivors were triaged by hand (`python3 tools/mutants.py report` prints them): all but two are equivalent mutants (for\n"
+           "Mechanical mutants (`tools/mutants.py`, first campaign): all 238 one-token mutants of its operator set over the Rust\n"
+           "sources (comparison flips, deleted statements, off-by-one constants) were each run through the existing tests and\n"
+           "then through the quick tier in a scratch copy: 8 do not compile, 143 are killed by the existing tests, 57 by a check\n"
+           "of this framework, 32 survive.  Survivors were triaged by hand (`python3 tools/mutants.py report` prints them): all but two are equivalent mutants (for\n"
            "instance `trim()` vs `trim_start()` before `is_empty()`, `is_ascii_hexdigit` where a later `parse::<u64>` rejects\n"
            "the same strings, iteration order over a loop stack that holds one entry per variable - an invariant proved in\n"
            "`C16.store_ok_reachable`) or lie outside the twenty properties (terminal detection, the static-warning line number\n"
